@@ -1958,7 +1958,9 @@ class ShortcutNode(ListNode):
                 if last_edge_shortcut:
                     self._full = True
                 return True
-            if len(self.nodes) == 1 and not self._full:
+            # it only grows at its end: base first, then the product. (Growing at its front made the
+            # multiply walk one value backwards every time the list was rebuilt.)
+            if len(self.nodes) == 1 and not self._full and direction == 1:
                 return True
         return False
 
@@ -1993,9 +1995,17 @@ class ShortcutNode(ListNode):
         if node.value is None:
             return False
         if len(self.nodes) == 0:
-            new_val = self._begin if direction == 1 else self._end
-            if self._type == Shortcuts.LOG_INTERPOLATE:
-                new_val = 10**new_val
+            candidates = [self._begin if direction == 1 else self._end]
+            if direction == 1:
+                # an interpolation written without its first value (it continues the shortcut before it)
+                # covers the values from one step in
+                candidates.append(self._begin + self._spacing)
+            for new_val in candidates:
+                if self._type == Shortcuts.LOG_INTERPOLATE:
+                    new_val = 10**new_val
+                if math.isclose(new_val, node.value, rel_tol=rel_tol, abs_tol=abs_tol):
+                    return True
+            return False
         else:
             edge = self.nodes[-1] if direction == 1 else self.nodes[0]
             edge = edge.value
